@@ -14,17 +14,18 @@ for i in range(start, start + mx):
     seed = derive_seed(777, prop, i)
     r = P.evaluate(seed, 'quick')
     e = r.get('error')
-    if r['outcome'] == 'kf' and e.kf == want or r['outcome'] == 'violation' and e.clause == want:
+    if (r['outcome'] == 'kf' and e.kf == want) or (r['outcome'] == 'violation' and e.clause == want):
         case = r['case']
         kf = e.kf if r['outcome'] == 'kf' else None
-        prog = checks.prog_from_json(case['ast'])
-        profile = P.replay_profile()
-        ops, ok = driver.shrink_ops(prog, case['ops'], profile, e.prop, e.clause, kf=kf, opts=case.get('world_opts'))
-        if ok: case['ops'] = ops
-        if best is None or len(case['ops']) + len(case['ast']['tasks']) < best[0]:
-            best = (len(case['ops']) + len(case['ast']['tasks']), case, e, seed)
-            print('candidate seed', seed, 'ops', len(case['ops']), 'tasks', len(case['ast']['tasks']))
-        if best[0] <= 12 or i - start > 3000: break
+        try:
+            case = P.shrink(case, {'prop': e.prop, 'clause': e.clause, 'kf': kf})
+        except Exception as ex:
+            print('shrink failed', ex)
+        size = len(case.get('ops') or []) + len(case['ast']['tasks'])
+        if best is None or size < best[0]:
+            best = (size, case, e, seed)
+            print('candidate seed', seed, 'size', size)
+        if best[0] <= 12 or i - start > 1500: break
 if best is None:
     print('not found'); sys.exit(1)
 _, case, e, seed = best
